@@ -8,7 +8,7 @@ n = int(sys.argv[2]) if len(sys.argv) > 2 else 300
 here = os.path.dirname(os.path.abspath(__file__))
 subprocess.check_call(['g++', '-std=gnu++11', '-O1', '-I%s/modules/alarm/3rd-party' % root, here + '/difftool.cpp', '%s/modules/alarm/3rd-party/ccronexpr.cpp' % root, '-o', '/var/tmp/cron_difftool'])
 exprs = ['10,40 5 * * * *', '0 */15 8-17 * 2 SAT,SUN', '0 0 0 29 1 *', '0 0 12 1 * *', '0 0 9 1 * 1', '0 0 8 13 * 5', '*/7 */11 */5 * * *', '5,35 10,50 3,15 * * *', '0 0 0 31 * *', '0 30 6 * * 1-5',
-         '59 59 23 28-31 * *', '0 0 0 1 1 *', '30 15 10 15 3,6,9,12 *', '0 0 12 * 2 0', '20 * * * * *', '0 0/30 * * * *', '1 2 3 4 5 *', '0 0 0 * * 6', '45 0 0 30 4,6,9,11 *', '0 0 12 29 2 *']
+         '59 59 23 28-31 * *', '0 0 0 1 1 *', '30 15 10 15 3,6,9,12 *', '0 0 12 * 2 0', '20 * * * * *', '0 0/30 * * * *', '1 2 3 4 5 *', '0 0 0 * * 6', '45 0 0 30 4,6,9,11 *', '0 0 12 29 2 *', '*/20 1-59/13 */6 1,15,31 */2 *', '0 0 0 31 1,3,5 1', '15 45 22 * 12 5', '0 59 23 28 2 *', '30 30 12 29,30,31 * 0,3', '0 0 6 1-7 * 1']
 rnd = random.Random(20261003)
 instants = [ts(2018, 6, 29, 10, 0, 0), ts(2009, 4, 27), ts(2019, 9, 9, 13, 0, 0), ts(2024, 8, 30, 10, 0, 0), ts(2024, 1, 31, 12, 3, 20), ts(2024, 3, 13, 6, 0, 0)] + \
     [rnd.randrange(0, ts(2090, 1, 1)) for _ in range(n)]
